@@ -21,6 +21,7 @@ def main():
     ap.add_argument("--hexstrings")
     ap.add_argument("--params", default="", help="k=v,k=v")
     ap.add_argument("--loaded", action="store_true")
+    ap.add_argument("--defs", default="", help="extra -D defines, comma separated, e.g. LIBCSD_VERIF_MEMALLOC=1")
     ap.add_argument("--ops", default="", help="extra ops separated by ';' e.g. 'pre 61;sub 62'")
     a = ap.parse_args()
     cases = []
@@ -54,7 +55,8 @@ def main():
         ops += [o.split() for o in a.ops.split(";") if o.strip()]
         cases.append(("adhoc", "dict", a.kind, pv, S, ops))
     rundir = os.path.join(build.BUILD, "run", "probe_%d" % os.getpid())
-    impl, mod, err = vcheck.run_cases(cases, a.cfg, rundir)
+    defs = tuple("-D" + d for d in a.defs.split(",") if d)
+    impl, mod, err = vcheck.run_cases(cases, a.cfg, rundir, defs, "_" + "".join(ch for ch in a.defs if ch.isalnum()) if defs else "")
     if err:
         print("ERROR", err)
         return 2
